@@ -7,29 +7,6 @@ package fpgo
 
 func c05Len() int { return 3 }
 
-func c05Box(l []int) []interface{} {
-	if l == nil {
-		return nil
-	}
-	r := make([]interface{}, len(l))
-	for i, v := range l {
-		r[i] = v
-	}
-	return r
-}
-
-func c05Unbox(l []interface{}) ([]int, bool) {
-	r := make([]int, 0, len(l))
-	for _, v := range l {
-		i, ok := v.(int)
-		if !ok {
-			return nil, false
-		}
-		r = append(r, i)
-	}
-	return r, true
-}
-
 func c05NonEmpty(name string) []int {
 	l := vfIntList(name, c05Len(), 0)
 	if len(l) == 0 {
@@ -64,22 +41,6 @@ func vh_C05_law_Union3() {
 	vfAssert("member", vfMember(u, x) == vfOr(vfMember(a, x), vfOr(vfMember(b, x), vfMember(c, x))))
 	vfAssert("nodup", vfNoDup(u))
 	vfReach("end")
-}
-
-func ref05InterOrdered(a, b []int) []int {
-	var r []int
-	for _, v := range ref03Distinct(a) {
-		in := false
-		for _, o := range b {
-			if o == v {
-				in = true
-			}
-		}
-		if in {
-			r = append(r, v)
-		}
-	}
-	return r
 }
 
 func vh_C05_law_Intersection() {
@@ -377,34 +338,6 @@ func vh_C05_law_Set() {
 
 // ---------- StreamSet / StreamSetForInterface twins (by key, then per-key stream) ----------
 
-// c05StreamSets builds the same key -> stream data in both families over the key universe {1,2}: each key is
-// absent, mapped to a nil stream, or mapped to a stream of 0..2 symbolic elements. (Keys are only ever compared
-// for equality, so concrete distinct keys lose no generality; stream elements stay symbolic.)
-func c05StreamSets(name string, allowNil bool) (*StreamSetDef[int, int], *StreamSetForInterfaceDef, []int) {
-	g := map[int]*StreamDef[int]{}
-	t := map[interface{}]*StreamForInterfaceDef{}
-	var keys []int
-	for k := 1; k <= 2; k++ {
-		shape := vfChoose(name+".key", 3)
-		if shape == 1 && !allowNil {
-			vfAssume(false)
-		}
-		switch shape {
-		case 0:
-			continue
-		case 1:
-			g[k] = nil
-			t[k] = nil
-		default:
-			l := vfIntList(name+".s", 2, 0)
-			g[k] = StreamFromArray(l)
-			t[k] = StreamForInterface.FromArray(c05Box(l))
-		}
-		keys = append(keys, k)
-	}
-	return StreamSetFromMap(g), StreamSetForInterfaceFromMap(t), keys
-}
-
 func c05SameStreamSet(label string, g *StreamSetDef[int, int], t *StreamSetForInterfaceDef, probes []int) {
 	if g == nil || t == nil {
 		vfAssert(label+"-nil", (g == nil) == (t == nil))
@@ -433,13 +366,6 @@ func c05SameStreamSet(label string, g *StreamSetDef[int, int], t *StreamSetForIn
 			}
 		}
 	}
-}
-
-func c05AsStreamSet(s SetDef[int, *StreamDef[int]]) *StreamSetDef[int, int] {
-	if s == nil {
-		return nil
-	}
-	return &StreamSetDef[int, int]{MapSetDef: *s.AsMapSet()}
 }
 
 func vh_C05_twin_StreamSet()          { c05TwinStreamSet(false) }
